@@ -1,4 +1,5 @@
 import GBS.Props.C05
+import GBS.Lemmas.Progress
 import Mathlib.Data.List.Perm.Subperm
 import Mathlib.Data.List.Perm.Lattice
 /-!
@@ -11,10 +12,19 @@ Proved here for every molecule description and every oracle (no well-posedness h
   the list of all descriptors of all instances (counting invariant + C04's no-reuse invariant).
 * `C06_open_accounting`: in general, `2·|bonds| + |open| = Σ descriptors of the instances`.
 
-`C06_partial`: that a molecule which the closability analysis `wellPosed` accepts *always* reaches the state "no open
-descriptor" (no error, termination within the explicit bound) is **not** proved; the check evaluates `wellPosed` in the model
-for every generated instance and requires the implementation to complete on every oracle tried (recorded and enumerated)
-whenever the model says well-posed, and reports the coverage.
+* `C06_certified_generates` (soundness of the decidable certificate check, `GBS/Lemmas/Progress.lean`): when `certify es`
+  returns a certificate, then **for every fuel and every oracle** `genMol` raises none of the implementation's errors (the only
+  failures left are "the oracle / the fuel ran out or does not fit", which the implementation does not have) and every run
+  that returns has **no open descriptor**.  The proof goes step by step through `choose`, `attach`, `capOne`/`capAll`,
+  `addUnit`, `finalize`, `growLoop`, `getStart`, `genStoch`, `genToken`, `genElems` with the invariant "every open descriptor
+  is a copy of a class of the certificate's set `R`" (plus "exactly one open" for chains and "a descriptor for the right
+  terminal exists after every unit").
+
+`C06_partial`: (i) *termination* within a bound on the number of oracle events (positive unit masses) is not a theorem: fuel
+exhaustion counts as benign above; (ii) the older syntactic analysis `wellPosed` (Appendix A.2) is kept as the wider classifier of
+the check; `certify` is what the theorem covers.  The check evaluates both in the model for every generated instance, requires
+the implementation to complete on every oracle tried whenever either says so, and reports how many well-posed instances carry a
+certificate.
 -/
 namespace GBS
 
@@ -147,5 +157,43 @@ theorem C06_every_descriptor_once {fuel : Nat} (es : List Element) {ω ω' : Ora
       | cons b bs ih => simp only [List.flatMap_cons, List.length_append, ih, IBond.origins, List.length_cons, List.length_nil]; omega
     omega
   exact (List.subperm_of_subset hnd hsub).perm_of_length_le hlen
+
+
+/-- **C06 (certified molecules generate to completion)** -/
+theorem C06_certified_generates (es : List Element) (cs : List ElemCert) (h : certify es = some cs) (fuel : Nat) (ω : Oracle) :
+    (∀ e, genMol fuel es ω = .error e → e = .badOracle ∨ e = .outOfOracle ∨ e = .outOfFuel) ∧
+    (∀ r t ω', genMol fuel es ω = .ok (r, t, ω') → ∃ m, r = some m ∧ m.opens = []) := by
+  unfold certify at h
+  simp only at h
+  split at h
+  · rename_i hc
+    simp only [Bool.and_eq_true, Bool.not_eq_true', decide_eq_true_eq] at hc
+    injection h with h
+    subst h
+    have hne : es ≠ [] := by
+      intro h0; rw [h0] at hc; simp at hc
+    exact certified_generates es _ hne hc.2 fuel ω
+  · cases h
+
+/-! non-vacuity: `C{[>][<]CC[>][<]}C`-like chain (prefix, two-descriptor unit, suffix) and an end-capped object are certified -/
+namespace C06Example
+def dL : Desc := { sym := .lt, id := none, order := .single }
+def dR : Desc := { sym := .gt, id := none, order := .single }
+def dN : Desc := { sym := .none, id := none, order := .single }
+def tPre : Token := { tid := 0, natoms := 1, mass := 12, bds := [{ dR with atom := 0 }] }
+def tRep : Token := { tid := 1, natoms := 2, mass := 24, bds := [dL, { dR with atom := 1 }] }
+def tSuf : Token := { tid := 2, natoms := 1, mass := 12, bds := [dL] }
+def tEndL : Token := { tid := 3, natoms := 1, mass := 16, bds := [dL] }
+def tEndR : Token := { tid := 4, natoms := 1, mass := 14, bds := [dR] }
+/-- `C{[>][<]CC[>][<]}|…|C` -/
+def chain : List Element := [.tok tPre, .stoch { left := dR, right := dL, repeats := [tRep], ends := [], hasDist := true }, .tok tSuf]
+/-- `{[][<]CC[>]; [<]O, [>]N []}|…|` -/
+def capped : List Element := [.stoch { left := dN, right := dN, repeats := [tRep], ends := [tEndL, tEndR], hasDist := true }]
+example : (certify chain).isSome = true := by decide +kernel
+example : (certify capped).isSome = true := by decide +kernel
+/-- an object whose chain end cannot be capped (no `[<]` end group) is not certified -/
+example : (certify [.stoch { left := dN, right := dN, repeats := [tRep], ends := [tEndR], hasDist := true }]).isSome = false := by
+  decide +kernel
+end C06Example
 
 end GBS
